@@ -1020,7 +1020,8 @@ def harnesses(tier):
 
 
 EXPECT = ["C08.pre_drawn_jump_counts_are_distinct_variates", "C08.seeded_run_puts_the_python_generator_in_the_seeded_state", "C08.seeded_single_process_run_repeats.standard", "C08.seeded_single_process_run_repeats.multilevel", "C08.no_two_paths_share_a_variate.standard",
-          "C08.no_two_samples_share_a_variate.multilevel"]
+          "C08.no_two_samples_share_a_variate.multilevel",
+          "C08.seeded_single_process_run_repeats.multilevel_fixed_levels", "C08.every_jump_time_is_a_variate_of_the_seeded_stream"]
 
 
 def main(tier):
